@@ -885,12 +885,64 @@ func c03R10(r *Report) {
 		return ok && c.Call.StaticCallee() == pbytes
 	}
 	n := 0
+	// isShare: v is (low − kept) / count, possibly computed by a helper of the package that is handed the mark
+	var isShare func(v ssa.Value, env map[*ssa.Parameter]ssa.Value, d int) bool
+	var mentionsLowIn func(v ssa.Value, env map[*ssa.Parameter]ssa.Value, d int) bool
+	mentionsLowIn = func(v ssa.Value, env map[*ssa.Parameter]ssa.Value, d int) bool {
+		if d > 8 || v == nil {
+			return false
+		}
+		v = resolve(v, 0)
+		switch x := v.(type) {
+		case *ssa.Parameter:
+			if a, ok := env[x]; ok {
+				return mentionsLow(a, 0)
+			}
+		case *ssa.BinOp:
+			if x.Op == token.ADD || x.Op == token.SUB {
+				return mentionsLowIn(x.X, env, d+1) || mentionsLowIn(x.Y, env, d+1)
+			}
+		case *ssa.Convert:
+			return mentionsLowIn(x.X, env, d+1)
+		}
+		return mentionsLow(v, 0)
+	}
+	isShare = func(v ssa.Value, env map[*ssa.Parameter]ssa.Value, d int) bool {
+		if d > 3 || v == nil {
+			return false
+		}
+		v = resolve(v, 0)
+		switch x := v.(type) {
+		case *ssa.BinOp:
+			return x.Op == token.QUO && mentionsLowIn(x.X, env, 0)
+		case *ssa.Convert:
+			return isShare(x.X, env, d+1)
+		case *ssa.Call:
+			h := x.Call.StaticCallee()
+			if h == nil || h.Blocks == nil || relPkg(h) != "tor" || x.Call.IsInvoke() {
+				return false
+			}
+			env2 := map[*ssa.Parameter]ssa.Value{}
+			for i, prm := range h.Params {
+				if i < len(x.Call.Args) {
+					env2[prm] = x.Call.Args[i]
+				}
+			}
+			rets := returnsOf(h)
+			for _, ret := range rets {
+				if len(ret.Results) != 1 || !isShare(ret.Results[0], env2, d+1) {
+					return false
+				}
+			}
+			return len(rets) > 0
+		}
+		return false
+	}
 	check := func(what string, x ssa.Value, pos token.Pos) {
 		n++
 		v := resolve(x, 0)
 		key := fmt.Sprintf("tor.Expire/%s(%s)-is-share-of-low-mark", what, exprStr(strip(x)))
-		bo, ok := v.(*ssa.BinOp)
-		okShape := ok && bo.Op == token.QUO && mentionsLow(bo.X, 0)
+		okShape := isShare(v, nil, 0)
 		r.Check(okShape, "R10", key, pos, "the threshold is the low-water mark (less what is kept) divided by a number of torrents",
 			"a per-torrent eviction threshold in tor.Expire is not a quotient whose numerator contains the low-water mark ("+exprStr(v)+"): the targets of the torrents above their share can add up to more than the mark, so an eviction pass does not bring the total down to it when several torrents are large")
 	}
